@@ -67,14 +67,15 @@ Qed.
 Definition urls_in (tb : table) : Prop := forall r, In r tb -> In (r_url r) universe.
 Definition op_in_universe (o : op) : Prop := match o with OpRegister u _ _ _ => In u universe | _ => True end.
 
-Lemma step_posts : forall mt prod now o tb, table_ok mt tb ->
+Lemma step_posts : forall mt prod now o tb, NoDup (map r_url tb) ->
   snd (step fixed mt prod now o tb) =
   match o with OpNotify _ => map post_of (filter r_active tb) | _ => [] end.
 Proof.
-  intros mt prod now o tb [Hnd _]. destruct o as [u k h t|u|f| |]; unfold step.
+  intros mt prod now o tb Hnd. destruct o as [u k h t|u|f| |m|]; unfold step.
   - destruct (register fixed u k h t tb). reflexivity.
   - destruct (delete u tb). reflexivity.
   - rewrite (notify_fixed_closed _ _ _ _ _ Hnd). reflexivity.
+  - reflexivity.
   - reflexivity.
   - reflexivity.
 Qed.
@@ -84,11 +85,11 @@ Proof.
   intros u tb Hnd. rewrite (posts_to_closed _ _ Hnd). destruct (find_row u tb) as [r|]; [destruct (r_active r)|]; simpl; lia.
 Qed.
 
-Lemma step_effective : forall mt prod now o tb, table_ok mt tb ->
+Lemma step_effective : forall mt prod now o tb, NoDup (map r_url tb) ->
   step fixed mt prod now (effective_outcomes o (snd (step fixed mt prod now o tb))) tb = step fixed mt prod now o tb.
 Proof.
-  intros mt prod now o tb Hok. rewrite (step_posts _ _ _ _ _ Hok). destruct Hok as [Hnd _].
-  destruct o as [u k h t|u|f| |]; try reflexivity.
+  intros mt prod now o tb Hnd. rewrite (step_posts _ _ _ _ _ Hnd).
+  destruct o as [u k h t|u|f| |m|]; try reflexivity.
   unfold effective_outcomes, step. rewrite !(notify_fixed_closed _ _ _ _ _ Hnd). f_equal. f_equal.
   apply map_ext_in. intros r Hin. unfold upd. destruct (r_active r) eqn:Ha; [|reflexivity].
   rewrite (posts_to_closed _ _ Hnd), (find_row_in_nodup _ _ Hnd Hin), Ha. reflexivity.
@@ -101,10 +102,10 @@ Proof.
   rewrite Hm in Hu. apply in_map_iff in Hu. destruct Hu as [r0 [He Hr0]]. rewrite <- He. apply H. exact Hr0.
 Qed.
 
-Lemma urls_in_step : forall mt prod now o tb, table_ok mt tb -> urls_in tb -> op_in_universe o ->
+Lemma urls_in_step : forall mt prod now o tb, NoDup (map r_url tb) -> urls_in tb -> op_in_universe o ->
   urls_in (fst (fst (step fixed mt prod now o tb))).
 Proof.
-  intros mt prod now o tb [Hnd Hall] Hin Ho. destruct o as [u k h t|u|f| |]; unfold step.
+  intros mt prod now o tb Hnd Hin Ho. destruct o as [u k h t|u|f| |m|]; unfold step.
   - unfold register. destruct (find_row u tb) as [r|] eqn:Hf.
     + rewrite load_fixed_id. destruct (r_active r); simpl; [exact Hin|].
       apply (urls_in_map tb); [apply persist_urls | exact Hin].
@@ -114,6 +115,7 @@ Proof.
     intros r1 Hr. apply filter_In in Hr. apply Hin. apply Hr.
   - rewrite (notify_fixed_closed _ _ _ _ _ Hnd). simpl.
     apply (urls_in_map tb); [|exact Hin]. rewrite map_map. apply map_ext. intros a. apply upd_url.
+  - exact Hin.
   - exact Hin.
   - exact Hin.
 Qed.
@@ -133,20 +135,20 @@ Proof.
 Qed.
 
 (* ---------- one step, then whole runs ---------- *)
-Lemma check_step_own : forall mt prod now o tb, 1 <= mt -> table_ok mt tb -> urls_in tb -> op_in_universe o ->
+Lemma check_step_own : forall mt prod now o tb, NoDup (map r_url tb) -> urls_in tb -> op_in_universe o ->
   let s := step fixed mt prod now o tb in
   check_step mt prod now o tb (snd (fst s), snd s, map (fun u => get fixed u (fst (fst s))) universe)
   = (fst (fst s), []).
 Proof.
-  intros mt prod now o tb Hmt Hok Hin Ho s. unfold check_step, step_fixed.
+  intros mt prod now o tb Hok Hin Ho s. unfold check_step, step_fixed.
   pose proof (step_effective mt prod now o tb Hok) as Heff. fold s in Heff. rewrite Heff.
   pose proof (step_posts mt prod now o tb Hok) as Hps. fold s in Hps.
-  pose proof (table_ok_step mt prod now o tb Hmt Hok) as Hok'. fold s in Hok'.
+  pose proof (nodup_step mt prod now o tb Hok) as Hok'. fold s in Hok'.
   pose proof (urls_in_step mt prod now o tb Hok Hin Ho) as Hin'. fold s in Hin'.
   destruct s as [[tb' r] ps]. simpl fst in *. simpl snd in *.
-  rewrite combine_map_r. rewrite (resync_own _ (proj1 Hok') Hin'). f_equal.
+  rewrite combine_map_r. rewrite (resync_own _ Hok' Hin'). f_equal.
   assert (Hlen : forall u, (length (posts_to u ps) <= 1)%nat).
-  { intros u. rewrite Hps. destruct o; try (simpl; lia). apply posts_len. apply Hok. }
+  { intros u. rewrite Hps. destruct o; try (simpl; lia). apply posts_len. exact Hok. }
   assert (Huniv : forallb (fun p : post => existsb (fun u => fst p =? u) universe) ps = true).
   { apply forallb_forall. intros p Hp. apply existsb_exists. exists (fst p). split; [|apply Z.eqb_refl].
     rewrite Hps in Hp. destruct o; try (destruct Hp).
@@ -158,38 +160,38 @@ Proof.
   intros p Hp. apply in_map_iff in Hp. destruct Hp as [u [Hp _]]. subst p. simpl fst. simpl snd. apply cmp_view_refl.
 Qed.
 
-Lemma check_from_cons : forall mt prod now o ops pre so obs,
-  check_from mt prod now (o :: ops) pre (so :: obs) =
-  map (fun c => (now, c)) (snd (check_step mt prod now o pre so)) ++
-  check_from mt prod (now + 1) ops (fst (check_step mt prod now o pre so)) obs.
-Proof. intros. cbn [check_from]. destruct (check_step mt prod now o pre so). reflexivity. Qed.
-
 Lemma run_from_cons : forall fx mt prod now o ops tb,
   run_from fx mt prod now (o :: ops) tb =
   let s := step fx mt prod now o tb in
   ((snd (fst s), snd s, map (fun u => get fx u (fst (fst s))) universe)
-     :: fst (run_from fx mt prod (now + 1) ops (fst (fst s))),
-   snd (run_from fx mt prod (now + 1) ops (fst (fst s)))).
+     :: fst (run_from fx (next_mt mt o) prod (now + 1) ops (fst (fst s))),
+   snd (run_from fx (next_mt mt o) prod (now + 1) ops (fst (fst s)))).
 Proof.
   intros. cbn [run_from]. destruct (step fx mt prod now o tb) as [[tb' r] ps]. cbn [fst snd].
-  destruct (run_from fx mt prod (now + 1) ops tb'). reflexivity.
+  destruct (run_from fx (next_mt mt o) prod (now + 1) ops tb'). reflexivity.
 Qed.
 
-Lemma check_from_own : forall mt prod ops now tb, 1 <= mt -> table_ok mt tb -> urls_in tb ->
+Lemma check_from_cons : forall mt prod now o ops pre so obs,
+  check_from mt prod now (o :: ops) pre (so :: obs) =
+  map (fun c => (now, c)) (snd (check_step mt prod now o pre so)) ++
+  check_from (next_mt mt o) prod (now + 1) ops (fst (check_step mt prod now o pre so)) obs.
+Proof. intros. cbn [check_from]. destruct (check_step mt prod now o pre so). reflexivity. Qed.
+
+Lemma check_from_own : forall prod ops mt now tb, NoDup (map r_url tb) -> urls_in tb ->
   Forall op_in_universe ops ->
   check_from mt prod now ops tb (fst (run_from fixed mt prod now ops tb)) = [].
 Proof.
-  intros mt prod ops. induction ops as [|o ops IH]; intros now tb Hmt Hok Hin Hops; [reflexivity|].
+  intros prod ops. induction ops as [|o ops IH]; intros mt now tb Hok Hin Hops; [reflexivity|].
   inversion Hops as [|x l Ho Hops']; subst. rewrite run_from_cons. cbv zeta. cbn [fst].
   rewrite check_from_cons.
-  rewrite (check_step_own mt prod now o tb Hmt Hok Hin Ho). cbn [fst snd map app].
-  apply IH; [exact Hmt | apply table_ok_step; assumption | apply urls_in_step; assumption | exact Hops'].
+  rewrite (check_step_own mt prod now o tb Hok Hin Ho). cbn [fst snd map app].
+  apply IH; [apply nodup_step; assumption | apply urls_in_step; assumption | exact Hops'].
 Qed.
 
-(* the oracle never raises an alarm on a run of the repaired model *)
-Theorem oracle_accepts_fixed : forall mt prod ops, 1 <= mt -> Forall op_in_universe ops ->
+(* the oracle never raises an alarm on a run of the repaired model - whatever the limit is and however restarts change it *)
+Theorem oracle_accepts_fixed : forall mt prod ops, Forall op_in_universe ops ->
   oracle mt prod ops (fst (run_fixed mt prod ops)) = [].
 Proof.
-  intros mt prod ops Hmt Hops. unfold oracle, run_fixed, run.
-  apply check_from_own; [exact Hmt | apply table_ok_nil | intros r [] | exact Hops].
+  intros mt prod ops Hops. unfold oracle, run_fixed, run.
+  apply check_from_own; [constructor | intros r [] | exact Hops].
 Qed.
